@@ -47,6 +47,7 @@ RULES = {
     "C14.hamilton": "quat_product(q1, q2) == (w1 v2 + w2 v1 + v1 x v2, w1 w2 - v1·v2) in scalar-last layout",
     "C14.tables": "LatticeSystem member values == Grimmer (a, b); _max_misorientation == theta_max row; both dispatchers cover all six members and raise ValueError otherwise",
     "C14.group-action": "every symmetry operator is a quaternion produced by a rotation constructor and every application goes through quat_product",
+    "C14.group-order": "the number of symmetry operators of each lattice system equals the order b of its proper rotation group (Grimmer's table): a shorter or longer list is not the group, so symmetry-equivalent orientations are not identified",
     "C14.index": "misorientation_index == theta_max/(2·nbins)·sum_i |theory(edge_i, edge_{i+1}) - count_i|; histogram range (0, theta_max), density=True, theta_max bins",
     "C14.coverage": "per lattice system the union of the branch intervals of misorientations_random equals [0, theta_max] exactly",
     "C14.normalisation": "per lattice system the theoretical density, as evaluated by the index on 1-degree bins over [0, theta_max], sums to 1 within 1e-3 "
@@ -127,6 +128,9 @@ def group_action(ctx, I0):
         except RaiseSig as r:
             ctx.ob("C14.group-action", f"geometry.symmetry_operations:{name}", False, f"raises {r.exc.typename}", gloc)
             continue
+        order = GRIMMER[name][1]
+        ctx.ob("C14.group-order", f"geometry.symmetry_operations:{name}", len(ops) == order,
+               f"{len(ops)} operators listed, the rotation group of the {name} system has order {order}", gloc)
         bad = [getattr(o, "shape", None) for o in ops if not (isinstance(o, np.ndarray) and o.shape == (4,) and all(
             any(a.kind == "fn:unitquat" for a in alg.atoms_of(lift(c))) for c in o))]
         ctx.ob("C14.group-action", f"geometry.symmetry_operations:{name}", not bad and len(ops) >= 1,
@@ -434,8 +438,21 @@ def batching(ctx):
     unordered = [n.lineno for n in ast.walk(fn) if isinstance(n, ast.Attribute) and n.attr in ("imap_unordered", "apply_async", "map_async")]
     ctx.ob("C14.batch-order", "pool branches", good >= 2 and not bad and not unordered,
            f"{good} order-preserving loop(s); other distribution loops {bad}; unordered primitives at lines {unordered}", loc)
+    # the worker function carries the caller's lattice system and bins
+    part = [s for s in ast.walk(fn) if isinstance(s, ast.Call) and (flow.dotted(s.func) or "").split(".")[-1] == "partial"]
+    okp = bool(part) and all({k.arg: ast.unparse(k.value) for k in p.keywords}.get("system") == "system" and
+                             {k.arg: ast.unparse(k.value) for k in p.keywords}.get("bins") == "bins" and
+                             (flow.dotted(p.args[0]) or "").split(".")[-1] == "misorientation_index" for p in part)
+    used = [lp for lp in fors if isinstance(lp.iter.args[0], ast.Call) and lp.iter.args[0].args and isinstance(lp.iter.args[0].args[0], ast.Name)]
+    names = {t.id for s in ast.walk(fn) if isinstance(s, ast.Assign) and s.value in part for t in s.targets if isinstance(t, ast.Name)}
+    okp = okp and all(lp.iter.args[0].args[0].id in names for lp in used)
+    ctx.ob("C14.batch-order", "every worker computes misorientation_index with the caller's system and bins", okp,
+           f"{len(part)} partial(s) binding {[sorted(k.arg for k in p.keywords) for p in part]}", loc)
+    remote = [s for s in ast.walk(fn) if isinstance(s, ast.Call) and isinstance(s.func, ast.Attribute) and s.func.attr == "remote"]
+    okr = all({k.arg: ast.unparse(k.value) for k in r.keywords}.get("system") == "system" and {k.arg: ast.unparse(k.value) for k in r.keywords}.get("bins") == "bins" for r in remote)
+    ctx.ob("C14.batch-order", "the Ray branch forwards system and bins", okr, "", loc)
     comps = [n for n in ast.walk(fn) if isinstance(n, ast.ListComp) and any(isinstance(g.iter, ast.Name) and g.iter.id == fn.args.args[0].arg for g in n.generators)]
     ctx.ob("C14.batch-order", "ray branch builds its task list in stack order", bool(comps), "", loc)
     out_alloc = any(isinstance(s, ast.Assign) and isinstance(s.value, ast.Call) and "len" in ast.unparse(s.value) and fn.args.args[0].arg in ast.unparse(s.value) for s in fn.body)
     ctx.ob("C14.batch-order", "one result slot per snapshot", out_alloc, "", loc)
-    ctx.floor("C14.batch-order", 3)
+    ctx.floor("C14.batch-order", 5)
